@@ -113,6 +113,7 @@ type Ctx struct {
 	Verbose    bool
 	WorkDir    string
 	caseViol   int
+	softSeen   map[string]bool
 }
 
 const maxViolPerWorker = 40
@@ -176,6 +177,22 @@ func (c *Ctx) Violate(site, clause, trigger, detail string) {
 		}
 	}
 	c.Res.Violations = append(c.Res.Violations, v)
+}
+
+// ViolateContinue records a violation at most once per key per case and does
+// not count it as a reason to abandon the case: used where a recorded known
+// finding is so pervasive that stopping would hide everything behind it.
+func (c *Ctx) ViolateContinue(site, clause, trigger, detail string) {
+	k := site + "|" + clause + "|" + trigger
+	if c.softSeen == nil {
+		c.softSeen = map[string]bool{}
+	}
+	if c.softSeen[k] {
+		return
+	}
+	c.softSeen[k] = true
+	c.Violate(site, clause, trigger, detail)
+	c.caseViol--
 }
 
 // CaseViolations is the number of violations recorded in the current case.
